@@ -365,7 +365,7 @@ mod k {
         }
     }
 
-    /// VERIF: {"p":"C17","tier":"quick","fns":["radv::RaAdvService::build_announcement_pure","radv::icmppkt::serialise_router_advertisement","radv::icmppkt::NDOptions::add_option"],"stubs":["<NDOptions as Default>::default -> empty option list with capacity 16 backed by a typed static array (CBMC cannot read enum discriminants back from malloc'd memory); push and iteration are the real code"],"bounds":"one prefix: all 2^128 addresses (host bits free, as the configuration parser stores them unmasked), prefix length 0..=128, on-link/autonomous flags, valid and preferred lifetimes any whole seconds 0..2^64-1: all symbolic; other options suppressed","oracle":"RFC 4861 4.6.2 decode: type 3 length 4, prefix length, L/A flags, Reserved1/Reserved2 zero, lifetimes exact or clamped to 0xffffffff (never wrapped), prefix bits equal inside the length and zero beyond it","covers":3,"unwind":20}
+    /// VERIF: {"p":"C17","tier":"experimental","fns":["radv::RaAdvService::build_announcement_pure","radv::icmppkt::serialise_router_advertisement","radv::icmppkt::NDOptions::add_option"],"stubs":["<NDOptions as Default>::default -> empty option list with capacity 16 backed by a typed static array (CBMC cannot read enum discriminants back from malloc'd memory); push and iteration are the real code"],"bounds":"one prefix: all 2^128 addresses (host bits free, as the configuration parser stores them unmasked), prefix length 0..=128, on-link/autonomous flags, valid and preferred lifetimes any whole seconds 0..2^64-1: all symbolic; other options suppressed","oracle":"RFC 4861 4.6.2 decode: type 3 length 4, prefix length, L/A flags, Reserved1/Reserved2 zero, lifetimes exact or clamped to 0xffffffff (never wrapped), prefix bits equal inside the length and zero beyond it","covers":3,"unwind":20}
     #[kani::proof]
     #[kani::unwind(20)]
     #[kani::stub(<crate::radv::icmppkt::NDOptions as std::default::Default>::default, crate::radv::icmppkt::NDOptions::verif_typed)]
@@ -390,7 +390,7 @@ mod k {
         std::mem::forget(conf);
     }
 
-    /// VERIF: {"p":"C17","tier":"quick","fns":["radv::RaAdvService::build_announcement_pure","radv::icmppkt::serialise_router_advertisement","radv::icmppkt::NDOptions::add_option"],"stubs":["<NDOptions as Default>::default -> empty option list with capacity 16 backed by a typed static array (CBMC cannot read enum discriminants back from malloc'd memory); push and iteration are the real code"],"bounds":"two prefixes, every field of both symbolic as in c17_prefix_option_one but lifetimes restricted to 0..2^32-1 s and addresses already masked to their length (the out-of-range cases are decided by c17_prefix_option_one); with link-layer address and MTU options in front","oracle":"both prefixes decoded at their own option, in configuration order, each field exact; framing","covers":1,"unwind":20}
+    /// VERIF: {"p":"C17","tier":"experimental","fns":["radv::RaAdvService::build_announcement_pure","radv::icmppkt::serialise_router_advertisement","radv::icmppkt::NDOptions::add_option"],"stubs":["<NDOptions as Default>::default -> empty option list with capacity 16 backed by a typed static array (CBMC cannot read enum discriminants back from malloc'd memory); push and iteration are the real code"],"bounds":"two prefixes, every field of both symbolic as in c17_prefix_option_one but lifetimes restricted to 0..2^32-1 s and addresses already masked to their length (the out-of-range cases are decided by c17_prefix_option_one); with link-layer address and MTU options in front","oracle":"both prefixes decoded at their own option, in configuration order, each field exact; framing","covers":1,"unwind":20}
     #[kani::proof]
     #[kani::unwind(20)]
     #[kani::stub(<crate::radv::icmppkt::NDOptions as std::default::Default>::default, crate::radv::icmppkt::NDOptions::verif_typed)]
@@ -476,18 +476,22 @@ mod k {
         std::mem::forget(conf);
     }
 
-    /// VERIF: {"p":"C17","tier":"quick","fns":["radv::RaAdvService::build_announcement_pure","radv::icmppkt::serialise_router_advertisement","radv::icmppkt::NDOptions::add_option"],"stubs":["<NDOptions as Default>::default -> empty option list with capacity 16 backed by a typed static array (CBMC cannot read enum discriminants back from malloc'd memory); push and iteration are the real code"],"bounds":"interface-level dns-servers.addresses with 1 or 2 addresses (all 2^128 values each, including :: = $self6, which erbium.conf(5) documents as usable here), interface address any non-zero value, dns-servers.lifetime tri-state with any whole seconds 0..2^64-1; a top-level server is configured too and must be overridden","oracle":"RFC 8106 5.1 decode: type 25, length 1+2n, reserved 0, lifetime exact or clamped to 0xffffffff (default 1800 s when not a Value), addresses in order with :: replaced by the interface address","covers":2,"unwind":20}
+    /// VERIF: {"p":"C17","tier":"quick","fns":["radv::RaAdvService::build_announcement_pure","radv::icmppkt::serialise_router_advertisement","radv::icmppkt::NDOptions::add_option"],"stubs":["<NDOptions as Default>::default -> empty option list with capacity 16 backed by a typed static array (CBMC cannot read enum discriminants back from malloc'd memory); push and iteration are the real code"],"bounds":"interface-level dns-servers.addresses with 1 address (all 2^128 values, including :: = $self6, which erbium.conf(5) documents as usable here), interface address any non-zero value, dns-servers.lifetime tri-state with any whole seconds 0..2^64-1; a top-level server is configured too and must be overridden","oracle":"RFC 8106 5.1 decode: type 25, length 1+2n, reserved 0, lifetime exact or clamped to 0xffffffff (default 1800 s when not a Value), addresses in order with :: replaced by the interface address","covers":1,"unwind":20}
     #[kani::proof]
     #[kani::unwind(20)]
     #[kani::stub(<crate::radv::icmppkt::NDOptions as std::default::Default>::default, crate::radv::icmppkt::NDOptions::verif_typed)]
     fn c17_rdnss_interface_level() {
-        if kani::any() {
-            rdnss_intf::<1>();
-            kani::cover!(true, "one server");
-        } else {
-            rdnss_intf::<2>();
-            kani::cover!(true, "two servers");
-        }
+        rdnss_intf::<1>();
+        kani::cover!(true, "one server");
+    }
+
+    /// VERIF: {"p":"C17","tier":"experimental","fns":["radv::RaAdvService::build_announcement_pure","radv::icmppkt::serialise_router_advertisement","radv::icmppkt::NDOptions::add_option"],"stubs":["<NDOptions as Default>::default -> empty option list with capacity 16 backed by a typed static array (CBMC cannot read enum discriminants back from malloc'd memory); push and iteration are the real code"],"bounds":"interface-level dns-servers.addresses with 2 addresses (all 2^128 values each, including :: = $self6, which erbium.conf(5) documents as usable here), interface address any non-zero value, dns-servers.lifetime tri-state with any whole seconds 0..2^64-1; a top-level server is configured too and must be overridden","oracle":"RFC 8106 5.1 decode: type 25, length 1+2n, reserved 0, lifetime exact or clamped to 0xffffffff (default 1800 s when not a Value), addresses in order with :: replaced by the interface address","covers":1,"unwind":20}
+    #[kani::proof]
+    #[kani::unwind(20)]
+    #[kani::stub(<crate::radv::icmppkt::NDOptions as std::default::Default>::default, crate::radv::icmppkt::NDOptions::verif_typed)]
+    fn c17_rdnss_interface_level_two() {
+        rdnss_intf::<2>();
+        kani::cover!(true, "two servers");
     }
 
     /// VERIF: {"p":"C17","tier":"quick","fns":["radv::RaAdvService::build_announcement_pure","radv::icmppkt::serialise_router_advertisement","radv::icmppkt::NDOptions::add_option"],"stubs":["<NDOptions as Default>::default -> empty option list with capacity 16 backed by a typed static array (CBMC cannot read enum discriminants back from malloc'd memory); push and iteration are the real code"],"bounds":"interface dns-servers not specified; top-level dns-servers = [IPv4 (symbolic), IPv6 a, IPv6 b] with a, b any of 2^128 values (:: = $self6), interface address non-zero symbolic, interface-level lifetime tri-state symbolic","oracle":"RFC 8106 5.1 decode: one RDNSS option with exactly the two IPv6 servers in order, :: replaced by the interface address; the IPv4 server is not advertised","covers":2,"unwind":20}
@@ -500,11 +504,11 @@ mod k {
         kani::assume(self6 != 0);
         let lt: u64 = kani::any();
         let (tri, want_lt) = any_tri(Duration::from_secs(lt), Duration::from_secs(DEFAULT_DNS_LIFETIME));
-        let conf = top(
-            vec![IpAddr::V4(Ipv4Addr::from(kani::any::<u32>())), IpAddr::V6(Ipv6Addr::from(a[0])), IpAddr::V6(Ipv6Addr::from(a[1]))],
-            Vec::new(),
-            None,
-        );
+        let mut servers = dns_vec();
+        servers.push(IpAddr::V4(Ipv4Addr::from(kani::any::<u32>())));
+        servers.push(IpAddr::V6(Ipv6Addr::from(a[0])));
+        servers.push(IpAddr::V6(Ipv6Addr::from(a[1])));
+        let conf = top(servers, Vec::new(), None);
         let mut intf = quiet();
         intf.rdnss = ConfigValue::NotSpecified;
         intf.rdnss_lifetime = tri;
@@ -549,18 +553,17 @@ mod k {
         std::mem::forget(conf);
     }
 
-    /// VERIF: {"p":"C17","tier":"quick","fns":["radv::RaAdvService::build_announcement_pure","radv::icmppkt::serialise_router_advertisement","radv::icmppkt::NDOptions::add_option"],"stubs":["<NDOptions as Default>::default -> empty option list with capacity 16 backed by a typed static array (CBMC cannot read enum discriminants back from malloc'd memory); push and iteration are the real code"],"bounds":"no IPv6 DNS server to advertise: (a) interface dns-servers not specified and top-level dns-servers = [one IPv4 address (symbolic)], (b) top-level list empty, (c) interface-level addresses: []; other options suppressed","oracle":"RFC 8106 5.1 / 5.3.1: an RDNSS option carries at least one address (Length >= 3, hosts treat a smaller Length as invalid) - with no server to advertise no RDNSS option is sent","covers":1,"unwind":20}
-    #[kani::proof]
-    #[kani::unwind(20)]
-    #[kani::stub(<crate::radv::icmppkt::NDOptions as std::default::Default>::default, crate::radv::icmppkt::NDOptions::verif_typed)]
-    fn c17_rdnss_absent_without_servers() {
-        let sel = kani::any::<u8>() % 3;
-        let conf = if sel == 0 { top(vec![IpAddr::V4(Ipv4Addr::from(kani::any::<u32>()))], Vec::new(), None) } else { top(Vec::new(), Vec::new(), None) };
+    // sel (concrete per call): 0 = top level has one IPv4 server only, 1 = top-level list empty, 2 = interface-level []
+    fn rdnss_absent(sel: u8) {
+        let mut servers = dns_vec();
+        if sel == 0 {
+            servers.push(IpAddr::V4(Ipv4Addr::from(kani::any::<u32>())));
+        }
+        let conf = top(servers, Vec::new(), None);
         let mut intf = quiet();
         intf.rdnss = if sel == 2 { ConfigValue::Value(Vec::new()) } else { ConfigValue::NotSpecified };
         let b = emit(&conf, &intf, None, None, Ipv6Addr::from(kani::any::<u128>()), Duration::from_secs(0));
         check_framing(&b);
-        kani::cover!(sel == 0, "IPv4-only DNS configuration");
         match find_opt(&b, 25, 0) {
             Some(o) => assert!(b[o + 1] >= 3, "an RDNSS option carries at least one address (Length >= 3, RFC 8106 5.1/5.3.1)"),
             None => {}
@@ -568,6 +571,19 @@ mod k {
         std::mem::forget(b);
         std::mem::forget(intf);
         std::mem::forget(conf);
+    }
+
+    /// VERIF: {"p":"C17","tier":"quick","fns":["radv::RaAdvService::build_announcement_pure","radv::icmppkt::serialise_router_advertisement","radv::icmppkt::NDOptions::add_option"],"stubs":["<NDOptions as Default>::default -> empty option list with capacity 16 backed by a typed static array (CBMC cannot read enum discriminants back from malloc'd memory); push and iteration are the real code"],"bounds":"no IPv6 DNS server to advertise: (a) interface dns-servers not specified and top-level dns-servers = [one IPv4 address (symbolic)], (b) top-level list empty, (c) interface-level addresses: []; other options suppressed","oracle":"RFC 8106 5.1 / 5.3.1: an RDNSS option carries at least one address (Length >= 3, hosts treat a smaller Length as invalid) - with no server to advertise no RDNSS option is sent","covers":1,"unwind":20}
+    #[kani::proof]
+    #[kani::unwind(20)]
+    #[kani::stub(<crate::radv::icmppkt::NDOptions as std::default::Default>::default, crate::radv::icmppkt::NDOptions::verif_typed)]
+    fn c17_rdnss_absent_without_servers() {
+        match kani::any::<u8>() % 3 {
+            0 => rdnss_absent(0),
+            1 => rdnss_absent(1),
+            _ => rdnss_absent(2),
+        }
+        kani::cover!(true, "reached");
     }
 
     // ---------------------------------------------------------------- DNSSL (RFC 8106 5.2) ---------------------
@@ -591,7 +607,7 @@ mod k {
         }
     }
 
-    /// VERIF: {"p":"C17","tier":"quick","fns":["radv::RaAdvService::build_announcement_pure","radv::icmppkt::serialise_router_advertisement","radv::icmppkt::NDOptions::add_option"],"stubs":["<NDOptions as Default>::default -> empty option list with capacity 16 backed by a typed static array (CBMC cannot read enum discriminants back from malloc'd memory); push and iteration are the real code"],"bounds":"search list shapes: interface-level [\"a.bc\",\"de\"] (top level has another list that must be overridden) and interface not specified -> top-level [\"x.yz\"]; dns-search.lifetime tri-state with any whole seconds 0..2^64-1","oracle":"RFC 8106 5.2 decode: type 31, length, reserved 0, lifetime exact or clamped (default 1800 s), names = 01 a 02 b c 00 02 d e 00 (+6 zero octets) resp. 01 x 02 y z 00 (+2 zero octets)","covers":2,"unwind":24}
+    /// VERIF: {"p":"C17","tier":"experimental","fns":["radv::RaAdvService::build_announcement_pure","radv::icmppkt::serialise_router_advertisement","radv::icmppkt::NDOptions::add_option"],"stubs":["<NDOptions as Default>::default -> empty option list with capacity 16 backed by a typed static array (CBMC cannot read enum discriminants back from malloc'd memory); push and iteration are the real code"],"bounds":"search list shapes: interface-level [\"a.bc\",\"de\"] (top level has another list that must be overridden) and interface not specified -> top-level [\"x.yz\"]; dns-search.lifetime tri-state with any whole seconds 0..2^64-1","oracle":"RFC 8106 5.2 decode: type 31, length, reserved 0, lifetime exact or clamped (default 1800 s), names = 01 a 02 b c 00 02 d e 00 (+6 zero octets) resp. 01 x 02 y z 00 (+2 zero octets)","covers":2,"unwind":24}
     #[kani::proof]
     #[kani::unwind(24)]
     #[kani::stub(<crate::radv::icmppkt::NDOptions as std::default::Default>::default, crate::radv::icmppkt::NDOptions::verif_typed)]
@@ -627,7 +643,7 @@ mod k {
         std::mem::forget(conf);
     }
 
-    /// VERIF: {"p":"C17","tier":"quick","fns":["radv::RaAdvService::build_announcement_pure","radv::icmppkt::serialise_router_advertisement","radv::icmppkt::NDOptions::add_option"],"stubs":["<NDOptions as Default>::default -> empty option list with capacity 16 backed by a typed static array (CBMC cannot read enum discriminants back from malloc'd memory); push and iteration are the real code"],"bounds":"no search domain configured: (a) interface dns-search not specified and top-level dns-search empty (the configuration loader default), (b) interface-level domains: []","oracle":"RFC 8106 5.2 / 5.3.1: a DNSSL option carries at least one domain name (Length >= 2, hosts treat a smaller Length as invalid) - with no domain configured no DNSSL option is sent","covers":1,"unwind":20}
+    /// VERIF: {"p":"C17","tier":"experimental","fns":["radv::RaAdvService::build_announcement_pure","radv::icmppkt::serialise_router_advertisement","radv::icmppkt::NDOptions::add_option"],"stubs":["<NDOptions as Default>::default -> empty option list with capacity 16 backed by a typed static array (CBMC cannot read enum discriminants back from malloc'd memory); push and iteration are the real code"],"bounds":"no search domain configured: (a) interface dns-search not specified and top-level dns-search empty (the configuration loader default), (b) interface-level domains: []","oracle":"RFC 8106 5.2 / 5.3.1: a DNSSL option carries at least one domain name (Length >= 2, hosts treat a smaller Length as invalid) - with no domain configured no DNSSL option is sent","covers":1,"unwind":20}
     #[kani::proof]
     #[kani::unwind(20)]
     #[kani::stub(<crate::radv::icmppkt::NDOptions as std::default::Default>::default, crate::radv::icmppkt::NDOptions::verif_typed)]
@@ -648,7 +664,7 @@ mod k {
         std::mem::forget(conf);
     }
 
-    /// VERIF: {"p":"C17","tier":"quick","fns":["radv::RaAdvService::build_announcement_pure","radv::icmppkt::serialise_router_advertisement","radv::icmppkt::NDOptions::add_option"],"stubs":["<NDOptions as Default>::default -> empty option list with capacity 16 backed by a typed static array (CBMC cannot read enum discriminants back from malloc'd memory); push and iteration are the real code"],"bounds":"interface-level search list with ONE domain made of a single 64-octet label (all a); RFC 1035 2.3.4 limits a label to 63 octets, so the wire format cannot represent it","oracle":"the unrepresentable domain is rejected (no DNSSL option, or none that carries it): every label-length octet met while walking the names of an emitted DNSSL option is <= 63 (RFC 1035 3.1: the two top bits of a length octet are zero)","covers":1,"unwind":80}
+    /// VERIF: {"p":"C17","tier":"experimental","fns":["radv::RaAdvService::build_announcement_pure","radv::icmppkt::serialise_router_advertisement","radv::icmppkt::NDOptions::add_option"],"stubs":["<NDOptions as Default>::default -> empty option list with capacity 16 backed by a typed static array (CBMC cannot read enum discriminants back from malloc'd memory); push and iteration are the real code"],"bounds":"interface-level search list with ONE domain made of a single 64-octet label (all a); RFC 1035 2.3.4 limits a label to 63 octets, so the wire format cannot represent it","oracle":"the unrepresentable domain is rejected (no DNSSL option, or none that carries it): every label-length octet met while walking the names of an emitted DNSSL option is <= 63 (RFC 1035 3.1: the two top bits of a length octet are zero)","covers":1,"unwind":80}
     #[kani::proof]
     #[kani::unwind(80)]
     #[kani::stub(<crate::radv::icmppkt::NDOptions as std::default::Default>::default, crate::radv::icmppkt::NDOptions::verif_typed)]
@@ -778,26 +794,26 @@ mod k {
         std::mem::forget(conf);
     }
 
-    /// VERIF: {"p":"C17","tier":"quick","fns":["radv::RaAdvService::build_announcement_pure","radv::icmppkt::serialise_router_advertisement","radv::icmppkt::NDOptions::add_option"],"stubs":["<NDOptions as Default>::default -> empty option list with capacity 16 backed by a typed static array (CBMC cannot read enum discriminants back from malloc'd memory); push and iteration are the real code"],"bounds":"captive-portal URL of 1, 5, 6, 7, 14 or 22 printable-ASCII octets (symbolic), given at interface level (overriding a different top-level URL) or inherited from the top level","oracle":"RFC 8910 2.3 decode: type 37, length = ceil((2+len)/8), URI octets equal, NUL padding only","covers":2,"unwind":36}
+    /// VERIF: {"p":"C17","tier":"quick","fns":["radv::RaAdvService::build_announcement_pure","radv::icmppkt::serialise_router_advertisement","radv::icmppkt::NDOptions::add_option"],"stubs":["<NDOptions as Default>::default -> empty option list with capacity 16 backed by a typed static array (CBMC cannot read enum discriminants back from malloc'd memory); push and iteration are the real code"],"bounds":"captive-portal URL of 1, 7, 22 printable-ASCII octets (symbolic) given at interface level (overriding a different top-level URL) and of 5, 6, 14 octets inherited from the top level","oracle":"RFC 8910 2.3 decode: type 37, length = ceil((2+len)/8), URI octets equal, NUL padding only","covers":2,"unwind":36}
     #[kani::proof]
     #[kani::unwind(36)]
     #[kani::stub(<crate::radv::icmppkt::NDOptions as std::default::Default>::default, crate::radv::icmppkt::NDOptions::verif_typed)]
     fn c17_captive_portal_option() {
-        let src = kani::any::<u8>() % 2;
-        match kani::any::<u8>() % 6 {
-            0 => portal::<1>(src),
-            1 => portal::<5>(src),
-            2 => portal::<6>(src),
-            3 => portal::<7>(src),
-            4 => portal::<14>(src),
-            _ => portal::<22>(src),
+        let sel = kani::any::<u8>() % 6;
+        match sel {
+            0 => portal::<1>(0),
+            1 => portal::<6>(1),
+            2 => portal::<7>(0),
+            3 => portal::<14>(1),
+            4 => portal::<5>(1),
+            _ => portal::<22>(0),
         }
-        kani::cover!(src == 0, "interface-level URL");
-        kani::cover!(src == 1, "top-level URL");
+        kani::cover!(sel == 0, "interface-level URL");
+        kani::cover!(sel == 1, "top-level URL");
     }
 
     // ---------------------------------------------------------------- everything at once: framing --------------
-    /// VERIF: {"p":"C17","tier":"quick","fns":["radv::RaAdvService::build_announcement_pure","radv::icmppkt::serialise_router_advertisement","radv::icmppkt::NDOptions::add_option"],"stubs":["<NDOptions as Default>::default -> empty option list with capacity 16 backed by a typed static array (CBMC cannot read enum discriminants back from malloc'd memory); push and iteration are the real code"],"bounds":"one advertisement with every option kind: lladdr, MTU, 2 prefixes, 2 RDNSS addresses, search list [\"a.bc\",\"de\"], PREF64 /64, 19-octet portal URL; addresses, MTU, flags symbolic, lifetimes symbolic within their wire ranges","oracle":"RFC 4861 4.6 framing: message and every option a multiple of 8 octets, no zero length, options tile the message; each option kind present exactly as often as configured (1,1,2,1,1,1,1); total length = sum of the RFC option sizes","covers":1,"unwind":36}
+    /// VERIF: {"p":"C17","tier":"experimental","fns":["radv::RaAdvService::build_announcement_pure","radv::icmppkt::serialise_router_advertisement","radv::icmppkt::NDOptions::add_option"],"stubs":["<NDOptions as Default>::default -> empty option list with capacity 16 backed by a typed static array (CBMC cannot read enum discriminants back from malloc'd memory); push and iteration are the real code"],"bounds":"one advertisement with every option kind: lladdr, MTU, 2 prefixes, 2 RDNSS addresses, search list [\"a.bc\",\"de\"], PREF64 /64, 19-octet portal URL; addresses, MTU, flags symbolic, lifetimes symbolic within their wire ranges","oracle":"RFC 4861 4.6 framing: message and every option a multiple of 8 octets, no zero length, options tile the message; each option kind present exactly as often as configured (1,1,2,1,1,1,1); total length = sum of the RFC option sizes","covers":1,"unwind":36}
     #[kani::proof]
     #[kani::unwind(36)]
     #[kani::stub(<crate::radv::icmppkt::NDOptions as std::default::Default>::default, crate::radv::icmppkt::NDOptions::verif_typed)]
@@ -837,47 +853,4 @@ mod k {
         std::mem::forget(intf);
         std::mem::forget(conf);
     }
-
-    // TMPEXP-BEGIN
-    /// VERIF: {"p":"C17","tier":"quick","fns":[],"bounds":"tmp","oracle":"tmp","covers":0,"unwind":24}
-    #[kani::proof]
-    #[kani::unwind(24)]
-    #[kani::stub(<crate::radv::icmppkt::NDOptions as std::default::Default>::default, crate::radv::icmppkt::NDOptions::verif_typed)]
-    fn c17_tmp_dnssl_heap() {
-        let conf = top(Vec::new(), Vec::new(), None);
-        let mut intf = quiet();
-        intf.dnssl = ConfigValue::Value(vec![String::from("a.bc"), String::from("de")]);
-        let b = emit(&conf, &intf, None, None, Ipv6Addr::UNSPECIFIED, Duration::from_secs(0));
-        let n = check_framing(&b);
-        assert!(n == 1 && count_opt(&b, 31) == 1, "exactly one DNSSL option");
-        if let Some(o) = find_opt(&b, 31, 0) {
-            check_dnssl(&b, o, &[1, b'a', 2, b'b', b'c', 0, 2, b'd', b'e', 0], 1800);
-        }
-        std::mem::forget(b);
-        std::mem::forget(intf);
-        std::mem::forget(conf);
-    }
-
-    /// VERIF: {"p":"C17","tier":"quick","fns":[],"bounds":"tmp","oracle":"tmp","covers":0,"unwind":24}
-    #[kani::proof]
-    #[kani::unwind(24)]
-    #[kani::stub(<crate::radv::icmppkt::NDOptions as std::default::Default>::default, crate::radv::icmppkt::NDOptions::verif_typed)]
-    fn c17_tmp_dnssl_typed() {
-        let conf = top(Vec::new(), Vec::new(), None);
-        let mut intf = quiet();
-        let mut v = search_vec();
-        v.push(String::from("a.bc"));
-        v.push(String::from("de"));
-        intf.dnssl = ConfigValue::Value(v);
-        let b = emit(&conf, &intf, None, None, Ipv6Addr::UNSPECIFIED, Duration::from_secs(0));
-        let n = check_framing(&b);
-        assert!(n == 1 && count_opt(&b, 31) == 1, "exactly one DNSSL option");
-        if let Some(o) = find_opt(&b, 31, 0) {
-            check_dnssl(&b, o, &[1, b'a', 2, b'b', b'c', 0, 2, b'd', b'e', 0], 1800);
-        }
-        std::mem::forget(b);
-        std::mem::forget(intf);
-        std::mem::forget(conf);
-    }
-    // TMPEXP-END
 }
